@@ -282,7 +282,7 @@ HashFromArgs(as) == IF as = << >> THEN << >>      \* later duplicates win
 RECURSIVE ConcatStr(_)
 ConcatStr(as) == IF as = << >> THEN "" ELSE as[1].t \o ConcatStr(Tail(as))
 \* string length: the model's strings are drawn from a fixed table
-StrLen(t) == CASE t = "" -> 0 [] t = "s" -> 1 [] t = "ab" -> 2 [] t = "boom" -> 4 [] OTHER -> -1
+StrLen(t) == Len(t)       \* TLC: strings are sequences of characters
 RECURSIVE MemberV(_, _)
 MemberV(x, l) == IF l.k = "nil" THEN BoolV(FALSE) ELSE IF EqualV(l.a, x) THEN l ELSE MemberV(x, l.d)
 RECURSIVE AssocV(_, _)
@@ -346,7 +346,7 @@ Delta(op, as) ==
     [] op = "equal?" -> IF n # 2 THEN ErrR("ArityMismatch") ELSE OkR(BoolV(EqualV(as[1], as[2])))
     [] op = "length" -> IF n # 1 THEN ErrR("ArityMismatch")
                         ELSE IF IsList(as[1]) THEN OkR(IntV(Len(SeqOf(as[1])))) ELSE ErrR("TypeMismatch")
-    [] op = "append" -> IF n = 2 /\ IsList(as[1]) /\ IsList(as[2]) THEN OkR(AppendV(as[1], as[2]))
+    [] op = "append" -> IF n = 2 /\ IsList(as[1]) THEN OkR(AppendV(as[1], as[2]))    \* the last argument may be any object
                         ELSE ErrR("TypeMismatch")
     [] op = "reverse" -> IF n # 1 THEN ErrR("ArityMismatch")
                          ELSE IF IsList(as[1]) THEN OkR(RevOnto(as[1], Nil)) ELSE ErrR("TypeMismatch")
